@@ -3,6 +3,8 @@ A concrete packet for the non-vacuity examples of Props/C01.lean, on the regener
 -/
 import Fatchoy.Model.C01Params
 import Fatchoy.Lemmas.CodecC01
+import Fatchoy.Lemmas.CodecLawful
+import Fatchoy.Lemmas.CodecLenData
 namespace Fatchoy.C01
 open Fatchoy.Codec
 
